@@ -367,12 +367,15 @@ type TypeOpts struct {
 	NoNullPkg  bool // no null.* wrappers
 	NoTime     bool
 	NoMaps     bool
+	AllKinds   bool // also kinds outside the supported domain (C05 / C15)
 	// Quarantine switches (features removed from the domain while an open finding covers them)
 	NoPtrPtr bool
 }
 
 var leafKinds = []Kind{KBool, KInt, KInt16, KInt32, KInt64, KFloat32, KFloat64, KString, KBytes, KTime,
 	KNullInt, KNullBool, KNullFloat, KNullString, KNullTime}
+
+var extraKinds = []Kind{KInt8, KUint, KUint8, KUint16, KUint32, KUint64, KUintptr, KComplex64, KComplex128, KIface, KChan, KFunc, KUnsafePtr, KArray, KMapIntKey, KSlice}
 
 func pick[X any](r *rand.Rand, xs []X) X { return xs[r.IntN(len(xs))] }
 
@@ -462,6 +465,24 @@ func genType(r *rand.Rand, o TypeOpts, depth int) *T {
 				return e
 			}
 			return &T{K: KPtr, Elem: e}
+		}
+	}
+	if o.AllKinds && r.IntN(5) == 0 {
+		switch k := pick(r, extraKinds); k {
+		case KArray:
+			e := genType(r, o, depth+1)
+			if r.IntN(2) == 0 {
+				e = &T{K: KUint8}
+			}
+			return &T{K: KArray, N: pick(r, []int{0, 1, 3, 16}), Elem: e}
+		case KMapIntKey:
+			return &T{K: KMapIntKey, Elem: genType(r, o, depth+1)}
+		case KChan:
+			return &T{K: KChan, Elem: &T{K: KInt}}
+		case KSlice:
+			return &T{K: KSlice, Elem: &T{K: pick(r, []Kind{KUint16, KUint32, KInt8, KComplex64})}}
+		default:
+			return &T{K: k}
 		}
 	}
 	for {
